@@ -4,6 +4,7 @@
    top-level box shapes; g = true is the repaired text, g = false the pinned text). *)
 From V.lib Require Import Base.
 From V.c04 Require Import C04Model C04AsmModel C04ReaderProofs C04ContainerProofs C04AsmProofs.
+From V.c04 Require Import C04AllocModel C04AllocProofs.
 
 (* ---- (a) bits.FixedSliceReader: every method, every reachable state, under the caller guards ---- *)
 Theorem C04_reader_safe : forall s o, rinv s = true -> rguard s o = true ->
@@ -125,6 +126,130 @@ Theorem C04_info_refuted_saio_without_offsets : exists f,
 Proof. exact info_refuted_saio_without_offsets. Qed.
 Print Assumptions C04_info_refuted_saio_without_offsets.
 
+
+(* ---- (d) the count-guard-then-allocate prologues of the table-box decoders (C04AllocModel.v) ----
+   bounded r a b e c n: the decoder returns (a box or an error, never a panic), has requested at most a*n + b
+   bytes with make / append, and e * (loop iterations) <= n + c; n = hdr.Size (at most the input length: DecodeBoxSR
+   rejects a box larger than the remaining bytes, readBoxBody fails when the body is short) or, for the decoders
+   without a size guard, the number of bytes the reader sees.  For ALL header sizes, header lengths and bodies. *)
+Theorem C04_alloc_trun : forall p hs hl body, bounded (alloc_trun p hs hl body) 4 16384 4 4096 hs.
+Proof. exact alloc_trun_bounded. Qed.
+Print Assumptions C04_alloc_trun.
+
+Theorem C04_alloc_stts : forall hs hl body, bounded (alloc_stts hs hl body) 1 0 8 0 hs.
+Proof. exact alloc_stts_bounded. Qed.
+Print Assumptions C04_alloc_stts.
+
+Theorem C04_alloc_stsc : forall hs hl body, bounded (alloc_stsc hs hl body) 2 0 12 0 hs.
+Proof. exact alloc_stsc_bounded. Qed.
+Print Assumptions C04_alloc_stsc.
+
+Theorem C04_alloc_stsz : forall hs hl body, bounded (alloc_stsz hs hl body) 1 0 4 0 hs.
+Proof. exact alloc_stsz_bounded. Qed.
+Print Assumptions C04_alloc_stsz.
+
+Theorem C04_alloc_stco : forall hs hl body, bounded (alloc_stco hs hl body) 1 0 4 0 hs.
+Proof. exact alloc_stco_bounded. Qed.
+Print Assumptions C04_alloc_stco.
+
+Theorem C04_alloc_co64 : forall hs hl body, bounded (alloc_co64 hs hl body) 1 0 8 0 hs.
+Proof. exact alloc_co64_bounded. Qed.
+Print Assumptions C04_alloc_co64.
+
+Theorem C04_alloc_stss : forall hs hl body, bounded (alloc_stss hs hl body) 1 0 4 0 hs.
+Proof. exact alloc_stss_bounded. Qed.
+Print Assumptions C04_alloc_stss.
+
+Theorem C04_alloc_sdtp : forall hs hl body, bounded (alloc_sdtp hs hl body) 1 0 1 0 hs.
+Proof. exact alloc_sdtp_bounded. Qed.
+Print Assumptions C04_alloc_sdtp.
+
+Theorem C04_alloc_saiz : forall hs hl body, bounded (alloc_saiz hs hl body) 1 0 1 0 hs.
+Proof. exact alloc_saiz_bounded. Qed.
+Print Assumptions C04_alloc_saiz.
+
+Theorem C04_alloc_saio : forall hs hl body, bounded (alloc_saio hs hl body) 2 0 4 0 hs.
+Proof. exact alloc_saio_bounded. Qed.
+Print Assumptions C04_alloc_saio.
+
+Theorem C04_alloc_senc : forall p hs hl body, bounded (alloc_senc p hs hl body) 0 0 1 0 hs.
+Proof. exact alloc_senc_bounded. Qed.
+Print Assumptions C04_alloc_senc.
+
+Theorem C04_alloc_sbgp : forall hs hl body, bounded (alloc_sbgp hs hl body) 1 0 8 0 hs.
+Proof. exact alloc_sbgp_bounded. Qed.
+Print Assumptions C04_alloc_sbgp.
+
+Theorem C04_alloc_elst : forall hs hl body, bounded (alloc_elst hs hl body) 2 0 12 0 hs.
+Proof. exact alloc_elst_bounded. Qed.
+Print Assumptions C04_alloc_elst.
+
+Theorem C04_alloc_tfra : forall hs hl body, bounded (alloc_tfra hs hl body) 3 0 11 0 hs.
+Proof. exact alloc_tfra_bounded. Qed.
+Print Assumptions C04_alloc_tfra.
+
+Theorem C04_alloc_sidx : forall hs hl body, bounded (alloc_sidx hs hl body) 0 1048560 1 65535 hs.
+Proof. exact alloc_sidx_bounded. Qed.
+Print Assumptions C04_alloc_sidx.
+
+Theorem C04_alloc_pssh : forall hs hl body, bounded (alloc_pssh hs hl body) 3 40 16 16 (lenN body).
+Proof. exact alloc_pssh_bounded. Qed.
+Print Assumptions C04_alloc_pssh.
+
+Theorem C04_alloc_ssix : forall hs hl body, bounded (alloc_ssix hs hl body) 3 0 8 0 hs.
+Proof. exact alloc_ssix_bounded. Qed.
+Print Assumptions C04_alloc_ssix.
+
+Theorem C04_alloc_treftype : forall hs hl body, bounded (alloc_treftype hs hl body) 1 0 4 0 hs.
+Proof. exact alloc_treftype_bounded. Qed.
+Print Assumptions C04_alloc_treftype.
+
+Theorem C04_alloc_leva : forall hs hl body, bounded (alloc_leva_prologue hs hl body) 0 5100 1 255 hs.
+Proof. exact alloc_leva_bounded. Qed.
+Print Assumptions C04_alloc_leva.
+
+(* ctts: make([]uint32, entryCount+1) wraps in uint32 for entryCount = 2^32-1, which needs a box of exactly
+   34359738376 bytes (32 GiB): bounded for every other size, an index panic at that size (not reproducible through
+   DecodeBox on this machine: the second make asks for 16 GiB first) *)
+Theorem C04_alloc_ctts : forall hs hl body, hs <> 34359738376 -> bounded (alloc_ctts hs hl body) 1 4 8 0 hs.
+Proof. exact alloc_ctts_bounded. Qed.
+Print Assumptions C04_alloc_ctts.
+
+Theorem C04_alloc_ctts_refuted_at_32GiB : forall hl body vf s1 s2,
+  rd_n body 4 rd0 = (vf, s1) -> rd_n body 4 s1 = (4294967295, s2) -> alloc_ctts 34359738376 hl body = Panic.
+Proof. exact alloc_ctts_panics. Qed.
+Print Assumptions C04_alloc_ctts_refuted_at_32GiB.
+
+(* sgpd with grouping type alst (first entry): the repaired text (26a2e48) is bounded by the bytes the reader sees;
+   the pinned text asked for 2 x (2^31-2) bytes on a 20-byte payload (witness replayed on the real code: 4 GiB) *)
+Theorem C04_alloc_sgpd_alst : forall hs hl body,
+  bounded (alloc_sgpd_alst true hs hl body) 1 262140 4 262140 (lenN body).
+Proof. exact alloc_sgpd_alst_bounded. Qed.
+Print Assumptions C04_alloc_sgpd_alst.
+
+Theorem C04_alloc_sgpd_alst_refuted :
+  exists o, alloc_sgpd_alst false 28 8 alst_witness = Ok o /\ o_alloc o = 4294967292 /\ lenN alst_witness = 20.
+Proof. exact alloc_sgpd_alst_pinned_balloons. Qed.
+Print Assumptions C04_alloc_sgpd_alst_refuted.
+
+(* box level, both decode paths, EVERY byte string shorter than 32 GiB whose box type is one of the 21 modelled
+   ones: header, size guard, prologue: at most 8 * len + 1048560 bytes requested, at most 2 * len + 65535 iterations *)
+Theorem C04_alloc_box_sr : forall bs, lenN bs < 34359738376 ->
+  match alloc_box_sr bs with Some r => bounded_box r (lenN bs) | None => True end.
+Proof. exact alloc_box_sr_bounded. Qed.
+Print Assumptions C04_alloc_box_sr.
+
+Theorem C04_alloc_box_r : forall bs, lenN bs < 34359738376 ->
+  match alloc_box_r bs with Some r => bounded_box r (lenN bs) | None => True end.
+Proof. exact alloc_box_r_bounded. Qed.
+Print Assumptions C04_alloc_box_r.
+
+(* the 32-bit counts and per-entry sizes <= 64 cannot wrap the uint64 expectedSize arithmetic *)
+Theorem C04_alloc_expected_size_no_wrap : forall body s k fixed, k <= 64 -> fixed <= 4096 ->
+  fixed + fst (rd_n body 4 s) * k < 18446744073709551616.
+Proof. exact exp_no_wrap. Qed.
+Print Assumptions C04_alloc_expected_size_no_wrap.
+
 (* ---- non-vacuity ---- *)
 Example ex_reader_state : rinv (mkR [0; 0; 0; 16; 102; 114; 101; 101]%N 4 false) = true.
 Proof. reflexivity. Qed.
@@ -157,3 +282,18 @@ Proof. vm_compute. reflexivity. Qed.
 Example ex_box_r : fst (box_r std_leaves ex_box_bytes)
   = Ok (BBox (Node name_moof [Node name_traf []; Leaf name_free 8])).
 Proof. vm_compute. reflexivity. Qed.
+
+(* a 24-byte trun (flags 0x004: first-sample-flags, no per-sample field) with sample_count 2^22 is rejected by the
+   prologue on both paths; with sample_count 3 it decodes to 3 samples and 48 bytes are requested *)
+Example ex_trun_fsf_big : list N := [0;0;0;20;116;114;117;110; 0;0;0;4; 0;64;0;0; 2;0;0;0].
+Example ex_trun_rejected :
+  alloc_box_sr ex_trun_fsf_big = Some rej /\ alloc_box_r ex_trun_fsf_big = Some rej.
+Proof. vm_compute. split; reflexivity. Qed.
+Example ex_trun_ok :
+  alloc_box_sr [0;0;0;20;116;114;117;110; 0;0;0;4; 0;0;0;3; 2;0;0;0] = Some (Ok (mkO true 3 48 3)).
+Proof. vm_compute. reflexivity. Qed.
+(* an stts with two entries: 16 bytes requested, two iterations; the hypothesis of the box theorems is satisfiable *)
+Example ex_stts_ok :
+  alloc_box_r [0;0;0;32;115;116;116;115; 0;0;0;0; 0;0;0;2; 0;0;0;1;0;0;0;1; 0;0;0;1;0;0;0;1] = Some (Ok (mkO true 2 16 2))
+  /\ lenN ex_trun_fsf_big < 34359738376.
+Proof. vm_compute. split; reflexivity. Qed.
